@@ -25,7 +25,7 @@ pub fn families() -> Vec<Family> {
             "hostile byte strings (random, mutated frames, 64-bit length boundary classes) into Header::decode, from_slice(_exact), read_message(_into)(_async) through chunking/EINTR/truncating readers",
             c02_parsers,
         )
-        .runs(60_000, 3_000_000)
+        .runs(250_000, 15_000_000)
         .deadlock(OnDeadlock::HarnessError)
         .aborts(),
         Family::new(
@@ -34,7 +34,7 @@ pub fn families() -> Vec<Family> {
             "hostile peer sends malformed bytes to the real blocking Server; a second healthy connection must still be served",
             c02_live_server,
         )
-        .runs(2_000, 80_000)
+        .runs(15_000, 900_000)
         .aborts(),
         Family::new(
             "c02_live_client",
@@ -42,7 +42,7 @@ pub fn families() -> Vec<Family> {
             "hostile server answers the real blocking Client with malformed bytes while calls are in flight; calls fail, process survives",
             c02_live_client,
         )
-        .runs(2_000, 80_000)
+        .runs(20_000, 1_200_000)
         .aborts(),
     ]
 }
